@@ -824,6 +824,7 @@ func (self *LockDB) checkTimeTimeOut(checkTimeoutTime int64, now int64, glockInd
 
 	lock = doTimeoutLocks.Pop()
 	for lock != nil {
+		verifPoint(14)
 		self.doTimeOut(lock, false, false)
 		lock = doTimeoutLocks.Pop()
 	}
@@ -1085,6 +1086,7 @@ func (self *LockDB) checkTimeExpried(checkExpriedTime int64, now int64, glockInd
 
 	lock = doExpriedLocks.Pop()
 	for lock != nil {
+		verifPoint(15)
 		self.doExpried(lock, false, false)
 		lock = doExpriedLocks.Pop()
 	}
